@@ -48,6 +48,12 @@ pub enum SQ {
     Inter(Vec<u8>),
     MustShould(u8, Vec<u8>),
     Tree(Q),
+    /// single term of the multi-valued raw field `tag` (postings without term frequencies)
+    Tag(u8),
+    TagUnion(Vec<u8>),
+    /// single term / union on `bnf` (frequencies, no field norms)
+    TermNf(u8),
+    UnionNf(Vec<u8>),
 }
 #[derive(Clone, Debug, Serialize, Deserialize)]
 pub struct Probe {
@@ -72,6 +78,10 @@ fn to_q(sq: &SQ) -> Q {
         SQ::Inter(ws) => Q::Bool(ws.iter().map(|w| (0u8, Q::Term(*w, 1))).collect(), None),
         SQ::MustShould(m, ws) => Q::Bool(std::iter::once((0u8, Q::Term(*m, 1))).chain(ws.iter().map(|w| (1u8, Q::Term(*w, 1)))).collect(), None),
         SQ::Tree(q) => q.clone(),
+        SQ::Tag(t) => Q::Tag(*t),
+        SQ::TagUnion(ts) => Q::Bool(ts.iter().map(|t| (1u8, Q::Tag(*t))).collect(), None),
+        SQ::TermNf(w) => Q::TermNf(*w),
+        SQ::UnionNf(ws) => Q::Bool(ws.iter().map(|w| (1u8, Q::TermNf(*w))).collect(), None),
     }
 }
 fn clauses(q: &Q) -> usize {
@@ -104,6 +114,10 @@ impl Sub for TopK {
             3 => prop::collection::vec(w(), 2..5).prop_map(SQ::Inter),
             2 => (w(), prop::collection::vec(w(), 1..4)).prop_map(|(m, s)| SQ::MustShould(m, s)),
             2 => query_strategy(2).prop_map(SQ::Tree),
+            1 => (0..NUM_TAGS).prop_map(SQ::Tag),
+            1 => prop::collection::vec(0..NUM_TAGS, 2..4).prop_map(SQ::TagUnion),
+            1 => w().prop_map(SQ::TermNf),
+            1 => prop::collection::vec(w(), 2..5).prop_map(SQ::UnionNf),
         ];
         let key = prop_oneof![
             6 => Just(Key::Score),
